@@ -108,6 +108,12 @@ void do_blank_lines()
          }
       }
       Chunk *next = pc->GetNext();
+
+      if (next->Is(CT_IGNORED))
+      {
+         // the blank lines in front of the first text of a disabled region belong to the region
+         continue;
+      }
       Chunk *pcmt = pc->GetPrev();
 
       bool  line_added = false;
